@@ -132,7 +132,7 @@ CLAIMS = {
          "library must close; the loss must be reported once), the same on a second session of the same client, and with the session ending on "
          "the write path (unwritable <a/>). TLC judges counts, order and the time bounds.",
     note="Trusted: TLC, wall-clock timestamps of the harness (upper bound exact: pings <= elapsed/interval + 1; lower bound tolerant: at least "
-         "half). At most one keepalive after the end of a session is accepted (its tick was already due). WebSocket pings are not driven. "
+         "half). At most one keepalive after the end of a session is accepted (its tick was already due). The real-client rate and failure modes also run over ws: (ping frames seen by a frame spy in the scripted server). "
          "Every session of a StreamManager run (first, resumed, freshly bound after a loss) is observed for 20 intervals through the lifecycle family and must "
          "show its own keepalives; failing pings return plain and timeout-class (net.Error) errors.",
     technique=TECH),
